@@ -397,6 +397,12 @@ impl SubscriptionManager {
             watermarks: self.watermarks.clone(),
             num_partitions: self.num_partitions,
             broadcast_rx: self.broadcast_tx.subscribe(),
+            // Sampled after the receiver exists: everything below is covered by history
+            start_watermarks: self
+                .watermarks
+                .iter()
+                .map(|(partition_id, watermark)| (*partition_id, watermark.get()))
+                .collect(),
             update_tx,
             last_ack_rx,
             window_size,
@@ -421,6 +427,8 @@ struct Subscription {
     watermarks: Arc<HashMap<PartitionId, Arc<AtomicWatermark>>>,
     num_partitions: u16,
     broadcast_rx: broadcast::Receiver<EventRecord>,
+    /// Watermark of each partition when the subscription was created
+    start_watermarks: HashMap<PartitionId, u64>,
     update_tx: UnboundedSender<SubscriptionEvent>,
     last_ack_rx: watch::Receiver<Option<u64>>,
     window_size: u64,
@@ -460,6 +468,16 @@ impl Subscription {
 
             match self.broadcast_rx.recv().await {
                 Ok(record) => {
+                    // The broadcaster replays confirmed events nobody listened to: those
+                    // confirmed before this subscription existed belong to its history
+                    if self
+                        .start_watermarks
+                        .get(&record.partition_id)
+                        .is_some_and(|watermark| record.partition_sequence < *watermark)
+                    {
+                        continue;
+                    }
+
                     if matcher.has_seen(&record) {
                         continue;
                     }
@@ -923,6 +941,7 @@ mod tests {
             watermarks,
             num_partitions,
             broadcast_rx,
+            start_watermarks: HashMap::new(),
             update_tx,
             last_ack_rx,
             window_size,
@@ -1021,6 +1040,7 @@ mod tests {
             watermarks,
             num_partitions,
             broadcast_rx,
+            start_watermarks: HashMap::new(),
             update_tx,
             last_ack_rx,
             window_size,
@@ -1190,6 +1210,7 @@ mod tests {
             watermarks,
             num_partitions,
             broadcast_rx,
+            start_watermarks: HashMap::new(),
             update_tx,
             last_ack_rx,
             window_size,
@@ -1281,6 +1302,7 @@ mod tests {
             watermarks,
             num_partitions,
             broadcast_rx,
+            start_watermarks: HashMap::new(),
             update_tx,
             last_ack_rx,
             window_size,
